@@ -130,7 +130,7 @@ func (k AttKey) Spell(s int) string {
 	return k.Hex
 }
 
-var secpN, _ = new(big.Int).SetString("fffffffffffffffffffffffffffffffffffffffffffffffffffffffebaaedce6af48a03bbfd25e8cd0364141", 16)
+var secpN = crypto.S256().Params().N
 
 // SignRSV returns the canonical (low-s) 65-byte signature with v in {0,1}.
 func (k AttKey) SignRSV(msg []byte) []byte {
